@@ -107,6 +107,11 @@ impl Interp {
             }
             // a note for the model driver only (it keeps a bounded history from here on)
             "long" => "ok".to_string(),
+            // `sm <id>`: borrow the state through `StateMut::state_mut` as a reader would, and let go of it again
+            "sm" => {
+                self.insts.get_mut(&id(toks[1])).expect("harness: unknown id").poke();
+                "ok".to_string()
+            }
             "acc" => self.insts[&id(toks[1])].acc(toks[2]),
             "guts" => self.insts.get_mut(&id(toks[1])).expect("harness: unknown id").guts(toks[2]),
             "cfg" => self.insts.get_mut(&id(toks[1])).expect("harness: unknown id").cfg(),
